@@ -49,6 +49,7 @@ type vJob struct {
 	WatchS int               `json:"watch_s,omitempty"`
 	Files  map[string]string `json:"files,omitempty"` // extra files written next to the module
 	Pre    []vReq            `json:"pre,omitempty"`   // requests issued one at a time before the (concurrent) main phase
+	PauseMs int              `json:"pause_ms,omitempty"` // real time to let pass between the pre phase and the main phase (TTL expiry)
 }
 
 type vResp struct {
@@ -311,6 +312,9 @@ func runVerifJob(job *vJob, tmp string, emit func(interface{})) *vOut {
 			os.Exit(99)
 		}
 		out.Pre = append(out.Pre, r)
+	}
+	if job.PauseMs > 0 {
+		time.Sleep(time.Duration(job.PauseMs) * time.Millisecond)
 	}
 	if job.Conc <= 1 {
 		for i := range job.Reqs {
